@@ -85,6 +85,22 @@ def histories(draw):
     return dict(game=g, ops=[list(o) for o in ops])
 
 
+@st.composite
+def rewire_histories(draw):
+    """Solve through an object, let the caller rewire one transition of the description (towards an absorbing
+    state, often a final one, often out of a state that could not reach a final state before), solve through
+    the SAME object again, in both modes."""
+    g = draw(games.stopping_games(min_inner=3, max_inner=8, max_sinks=3, max_finals=2))
+    m = draw(st.booleans())
+    ops = [["new", m], ["solve", 0]]
+    for _ in range(draw(st.integers(1, 3))):
+        ops.append(["rewire", draw(st.integers(0, 20)), draw(st.integers(0, 5)), draw(st.integers(0, 5))])
+        ops.append(["solve", 0])
+        if draw(st.booleans()):
+            ops += [["flip", 0], ["solve", 0]]
+    return dict(game=g, ops=ops)
+
+
 # ----------------------------------------------------------------------------- interpreter
 def structure(x):
     """Deep structural fingerprint: container types kept, floats by repr."""
@@ -409,5 +425,7 @@ def ddmin_ops(case, sig):
 
 def phases(tier):
     return [Phase("histories-op-lists", strategy=histories, examples=(500, 30000)),
+            Phase("solve-rewire-solve", strategy=rewire_histories, examples=(300, 15000),
+                  note="the caller edits its description between two solves through the same object"),
             Phase("state-machine", machine=make_machine, examples=(150, 8000), minimise=ddmin_ops,
                   note="hypothesis.stateful.RuleBasedStateMachine, stateful_step_count=12")]
